@@ -23,6 +23,17 @@ type fileCase struct {
 func genFileDAG(t *rapid.T, minLen, maxLen int) *fileCase {
 	w := rapid.IntRange(2, 4).Draw(t, "w")
 	cs := rapid.IntRange(1, 9).Draw(t, "cs")
+	if rapid.IntRange(0, 11).Draw(t, "wide") == 0 {
+		// one very wide node (more links than the default width of 174): one-byte chunks
+		w = rapid.SampledFrom([]int{175, 200, 255, 256, 257, 300}).Draw(t, "widew")
+		cs = 1
+		if maxLen < 320 {
+			maxLen = 320
+		}
+		if minLen < 180 {
+			minLen = 180
+		}
+	}
 	n := rapid.IntRange(minLen, maxLen).Draw(t, "len")
 	if rapid.IntRange(0, 3).Draw(t, "lenclass") == 0 {
 		// aim at chunk-count boundaries
@@ -89,7 +100,7 @@ func genHandFile(t *rapid.T, allowOldStyle bool) (root *mnode, data []byte, writ
 	// (malformed per the UnixFS spec but tolerated by the reader: only generated where correctness of the bytes is the subject,
 	// not request order or laziness)
 	noBlockSizes := allowOldStyle && pbLeaves && rapid.IntRange(0, 2).Draw(t, "noBlockSizes") == 0
-	noFileSize := noBlockSizes && rapid.Bool().Draw(t, "noFileSize")
+	noFileSize := allowOldStyle && rapid.IntRange(0, 2).Draw(t, "noFileSize") == 0 // FileSize is optional: the length then comes from the links
 	var chunks [][]byte
 	pattern := ""
 	for i := 0; i < n; i++ {
